@@ -92,8 +92,9 @@ func (dc *dcache2) isEmpty(c *square) bool {
 	// evaluate the SDF2 at the center of the square
 	s := 1 << (c.n - 1) // half side
 	_, d := dc.evaluate(c.v.AddScalar(s))
-	// compare to the center/corner distance
-	return math.Abs(d) >= dc.hdiag[c.n]
+	// compare to the center/corner distance (strictly: at equality the surface
+	// can pass through corners of the square)
+	return math.Abs(d) > dc.hdiag[c.n]
 }
 
 // Process a square. Generate line segments, or more squares.
